@@ -5,6 +5,9 @@ use axcut2x86_64::config::{Register, Spill, Temporary};
 use std::collections::HashMap;
 
 pub const SPILL_SPACE: u64 = 2048;
+pub const CODE_BASE: u64 = 0x40_0000;
+/// size attributed to every instruction = size of `jmp near rel32`
+pub const STRIDE: u64 = 5;
 
 #[derive(Clone)]
 pub struct X86 {
@@ -88,11 +91,30 @@ impl Machine for X86 {
 
     fn exec(&mut self, code: &[Code]) -> Exit {
         let mut labels = HashMap::new();
+        // address model: every real instruction occupies STRIDE bytes (the size of the fixed jump used in
+        // jump tables), labels / comments / directives occupy none; label addresses resolve into the fragment
+        let mut addr_of: Vec<u64> = Vec::with_capacity(code.len());
+        let mut index_of: HashMap<u64, usize> = HashMap::new();
+        let mut a = CODE_BASE;
         for (i, c) in code.iter().enumerate() {
-            if let Code::LAB(l) = c {
-                labels.insert(l.clone(), i);
+            addr_of.push(a);
+            match c {
+                Code::LAB(l) => {
+                    labels.insert(l.clone(), i);
+                }
+                Code::NOEXECSTACK | Code::TEXT | Code::GLOBAL(_) | Code::EXTERN(_) | Code::COMMENT(_) => {}
+                _ => {
+                    index_of.insert(a, i);
+                    a += STRIDE;
+                }
             }
         }
+        let label_address = |l: &str| -> u64 {
+            match labels.get(l) {
+                Some(&i) => addr_of[i],
+                None => label_addr(l),
+            }
+        };
         let mut pc = 0usize;
         let mut steps = 0;
         while pc < code.len() {
@@ -170,13 +192,16 @@ impl Machine for X86 {
                 CQO => {
                     self.regs[5] = if (self.regs[4] as i64) < 0 { u64::MAX } else { 0 };
                 }
-                JMP(r) => return Exit::Reg(self.rd(*r)),
+                JMP(r) => match index_of.get(&self.rd(*r)) {
+                    Some(&i) => pc = i,
+                    None => return Exit::Reg(self.rd(*r)),
+                },
                 JMPL(l) | JMPLN(l) => match labels.get(l) {
                     Some(&i) => pc = i,
                     None => return Exit::Label(l.clone()),
                 },
                 LEAL(r, l) => {
-                    self.regs[r.0] = label_addr(l);
+                    self.regs[r.0] = label_address(l);
                 }
                 MOV(a, b) => self.regs[a.0] = self.rd(*b),
                 MOVS(r, b, o) => {
@@ -232,7 +257,7 @@ impl Machine for X86 {
                     let sp = self.regs[0];
                     let mut rng = self.rng.clone();
                     for (a, v) in self.mem.iter_mut() {
-                        if *a < sp {
+                        if *a < sp && *a >= sp.wrapping_sub(1 << 24) {
                             *v = rng.next();
                         }
                     }
